@@ -216,7 +216,7 @@ def jobs(tier):
         i = z3.Int("i")
         return z3.And(i >= 0, i < len(EXTRA_SOURCES)), [i], {"i": i}
 
-    js = s1_jobs(tier, harness, quick_n5_max_edges=7)
+    js = s1_jobs(tier, harness, quick_n5_max_edges=7, with_routes=False)
     js = js[:2] if tier == "quick" else js[:3]
     from vf.spaces import s4b_space, realise_s4b
 
